@@ -747,6 +747,45 @@ def history_check(ctx, transport, maxops, hlogcfgs='LogCfgsSmall'):
     return res
 
 
+def env_graph(ctx, transport, part, carry):
+    """the state graph of an environment configuration (last-operation form), every action it needs taken"""
+    tag = '%s_%s' % (part, transport)
+    cfg = tlc.write_cfg(os.path.join(ctx.work, 'e_%s.cfg' % tag), invariants=INVS, constants=env_consts(transport, part, False, 1, carry=carry))
+    dot = os.path.join(ctx.work, 'e_%s.dot' % tag)
+    res = tlc.run('MCSendLog', cfg, ctx.work, workers=1, timeout=900, heap='2g', extra=['-dump', 'dot,actionlabels', dot], outname='e_%s.out' % tag)
+    if not res['ok']:
+        raise tlc.TLCError('SendLog (%s configuration, %s): %s (%s)' % (part, transport, res['violated'] or 'TLC failed', res['out']))
+    g = stategraph.Graph(dot)
+    os.unlink(dot)
+    taken = set(l.split('(')[0] for es in g.edges.values() for l, d in es)
+    need = NEEDED_LIFE[transport] if part == 'life' else NEEDED_AWAIT
+    if need - taken:
+        raise tlc.TLCError('SendLog %s/%s: actions never taken: %s' % (part, transport, sorted(need - taken)))
+    for n, st in g.nodes.items():
+        st['logcfg'] = sorted(st['logcfg'][1])
+    return res, g
+
+
+def env_history(ctx, transport, part, maxops, carry):
+    tag = '%s_%s' % (part, transport)
+    cfg = tlc.write_cfg(os.path.join(ctx.work, 'eh_%s.cfg' % tag), invariants=INVS, constants=env_consts(transport, part, True, maxops, carry=carry))
+    res = tlc.run('MCSendLog', cfg, ctx.work, workers=2, timeout=2400, heap='4g', outname='eh_%s.out' % tag)
+    if not res['ok']:
+        raise tlc.TLCError('SendLog (%s configuration, whole histories, %s): %s (%s)' % (part, transport, res['violated'] or 'TLC failed', res['out']))
+    return res
+
+
+def env_mutant_check(ctx, bug):
+    transport, part, expect = ENV_BUGS[bug]
+    cfg = tlc.write_cfg(os.path.join(ctx.work, 'm_%s.cfg' % bug), constants=env_consts(transport, part, True, 3, bug=bug), invariants=INVS)
+    res = tlc.run('MCSendLog', cfg, ctx.work, workers=2, timeout=600, heap='2g', outname='m_%s.out' % bug)
+    if res['violated'] not in expect and (res['machinery_error'] or res['timed_out']):
+        res = tlc.run('MCSendLog', cfg, ctx.work, workers=2, timeout=600, heap='2g', outname='m_%s.out' % bug)
+    if res['violated'] not in expect:
+        raise tlc.TLCError('SendLog (%s, %s) with Bug=%s should violate one of %s, got %s' % (part, transport, bug, sorted(expect), res['violated']))
+    return res['violated']
+
+
 def mutant_check(ctx, bug):
     cfg = tlc.write_cfg(os.path.join(ctx.work, 'm_%s.cfg' % bug), constants=consts('pty', True, 2, True, bug), invariants=INVS)
     res = tlc.run('MCSendLog', cfg, ctx.work, workers=2, timeout=600, heap='2g', outname='m_%s.out' % bug)
@@ -774,18 +813,32 @@ def run(ctx):
     t0 = time.time()
     # (1) TLC: whole-history configuration per transport, mutants, last-operation graphs
     maxops = 3 if quick else 4
-    with ThreadPool(2) as tp:
+    envs = [(tr, 'life') for tr in TRANSPORTS] + [(tr, 'await') for tr in AWAIT_TRANSPORTS]
+    carry = 1 if quick else 2
+    with ThreadPool(3) as tp:
+        # the environment configurations: graphs to walk, whole histories, the model's own mutants
+        egraphs_a = tp.map_async(lambda e: env_graph(ctx, e[0], e[1], carry), envs)
+        ehist_a = tp.map_async(lambda e: env_history(ctx, e[0], e[1], (3 if quick else 4) if e[1] == 'life' else (4 if quick else 5), carry), envs)
+        ecaught_a = tp.map_async(lambda b: env_mutant_check(ctx, b), sorted(ENV_BUGS))
         hist = tp.map(lambda tr: history_check(ctx, tr, maxops), TRANSPORTS)
         # one operation more on the transport with the most operations, fewer log configurations
         deep = history_check(ctx, 'pty', maxops + 1, 'LogCfgsTwo' if quick else 'LogCfgsOne')
         caught = tp.map(lambda b: mutant_check(ctx, b), sorted(BUGS))
         graphs = tp.map(lambda tr: window_graph(ctx, tr), TRANSPORTS)
+        egraphs, ehist, ecaught = egraphs_a.get(), ehist_a.get(), ecaught_a.get()
     hstates = sum(r['distinct'] for r in hist) + deep['distinct']
     ctx.note('TLC SendLog, whole histories on pty with <= %d operations (%d log configuration(s)): %d distinct states' % (
         maxops + 1, 2 if quick else 1, deep['distinct']))
     ctx.note('TLC SendLog, whole histories (<= %d operations, 3 payload classes, 4 log configurations, bytes/utf-8/utf-16): %s '
              'distinct states; %d invariants hold' % (maxops, ' + '.join('%s %d' % (tr, r['distinct']) for tr, r in zip(TRANSPORTS, hist)), len(INVS)))
-    ctx.note('model sensitivity: ' + ', '.join('%s -> %s' % (b, v) for b, v in zip(sorted(BUGS), caught)))
+    ctx.note('model sensitivity: ' + ', '.join('%s -> %s' % (b, v) for b, v in list(zip(sorted(BUGS), caught)) + list(zip(sorted(ENV_BUGS), ecaught))))
+    ctx.note('TLC SendLog, environment configurations (life: reads ending in TIMEOUT (0 / small) or EOF between sends of small and '
+             'larger-than-buffer payloads, peer shuts its output side down and keeps reading, peer gone, object closed, stalled peer on a '
+             'socket with a user timeout -> failing sends; await: awaited reads, cancelled by task.cancel() / asyncio.wait_for, timed out, '
+             'output arriving between two calls (<= %d piece(s) in flight), mixed with blocking reads and sends; bytes / utf-8, socket handed '
+             'over blocking / with a user timeout): whole histories %s distinct states; last-operation graphs %s' % (
+                 carry, ' + '.join('%s/%s %d' % (p, tr, r['distinct']) for (tr, p), r in zip(envs, ehist)),
+                 ', '.join('%s/%s %d/%d' % (p, tr, len(g.nodes), g.n_edges()) for (tr, p), (r, g) in zip(envs, egraphs))))
     ctx.note('TLC SendLog, last-operation configuration (6 payload classes, %d log configurations, 3 modes)' % (5 if quick else 8) + ': ' + ', '.join(
         '%s %d states / %d transitions' % (tr, len(g.nodes), g.n_edges()) for tr, (r, g) in zip(TRANSPORTS, graphs)) +
         ' (%.0fs of TLC so far)' % (time.time() - t0))
@@ -795,6 +848,16 @@ def run(ctx):
         walks = plan_walks(g, 30 if quick else 60, rng)
         for widx, (i0, walk) in enumerate(walks):
             jobs.append({'transport': tr, 'init': slim(g.nodes[i0]), 'widx': widx, 'work': ctx.work, 'pid': pid, 'known': ctx.findings,
+                         'steps': [(lab, slim(g.nodes[d])) for lab, d in walk]})
+    n_main = len(jobs)
+    for (tr, part), (res, g) in zip(envs, egraphs):
+        walks = plan_walks(g, 20 if quick else 40, rng)
+        for widx, (i0, walk) in enumerate(walks):
+            names = set(l.split('(')[0] for l, d in walk)
+            init = slim(g.nodes[i0])
+            jobs.append({'transport': tr, 'init': init, 'widx': widx, 'work': ctx.work, 'pid': pid, 'known': ctx.findings, 'env': part,
+                         'rig': {'sock_tmo': init['sockTmo'] if part == 'life' else None,
+                                 'fd_kind': 'socketpair' if (names & {'HalfCloseEof', 'PeerGone'}) else None},
                          'steps': [(lab, slim(g.nodes[d])) for lab, d in walk]})
     order = list(range(len(jobs)))
     rng.shuffle(order)
@@ -834,7 +897,8 @@ def run(ctx):
         others += o['other']
         drifts += o.get('driftlist', [])[:1]
         for f in o['fails']:
-            ctx.fail(f['clause'], {'transport': j['transport'], 'init': j['init'], 'widx': j['widx'], 'steps': j['steps'][:f['at'] + 1] if not
+            ctx.fail(f['clause'], {'transport': j['transport'], 'init': j['init'], 'widx': j['widx'], 'env': j.get('env'), 'rig': j.get('rig', {}),
+                                   'steps': j['steps'][:f['at'] + 1] if not
                                    j['steps'][f['at']][0].startswith('EnterInteract') else j['steps'][:_interact_end(j['steps'], f['at']) + 1]},
                      detail=f['detail'], signature=signature(j, f))
     for m in ('bytes', 'utf8'):
@@ -952,7 +1016,7 @@ def replay(ctx):
                 ctx.fail(clause, c, detail=detail, signature=d.get('signature'))
         return common.conclude(ctx)[0]
     job = {'transport': c['transport'], 'init': c['init'], 'widx': c.get('widx', 0), 'work': ctx.work,
-           'steps': [tuple(s) for s in c['steps']], 'confirm': False}
+           'steps': [tuple(s) for s in c['steps']], 'confirm': False, 'env': c.get('env'), 'rig': c.get('rig') or {}}
     out = run_walk(job)
     print(json.dumps({k: out[k] for k in ('fails', 'machinery', 'steps')}, indent=1, default=repr)[:4000])
     job['kind'] = out['kind']
